@@ -18,4 +18,4 @@ for P in "$@"; do
   (cd /verif && PYVC_REPO=$WT ./check $P 2>&1 | grep -v "WARNING\|^KNOWN" | cut -c1-260 | tail -6)
 done
 git -C /repo worktree remove --force $WT
-rm -rf /verif/replays/C*/ 2>/dev/null
+
